@@ -448,23 +448,24 @@ class Context(object):
         self.feature.parser.variant = "steps"
         steps = self.feature.parser.parse_steps(steps_text)
         with self._use_with_behave_mode():
-            for step in steps:
-                passed = step.run(self._runner, quiet=True, capture=False)
-                if not passed:
-                    # -- ISSUE #96: Provide more substep info to diagnose problem.
-                    step_line = u"%s %s" % (step.keyword, step.name)
-                    message = "%s SUB-STEP: %s" % \
-                              (step.status.name.upper(), step_line)
-                    if step.error_message:
-                        message += "\nSubstep info: %s\n" % step.error_message
-                        message += u"Traceback (of failed substep):\n"
-                        message += u"".join(traceback.format_tb(step.exc_traceback))
-                    # message += u"\nTraceback (of context.execute_steps()):"
-                    assert False, message
-
-            # -- FINALLY: Restore original context data for current step.
-            self.table = original_table
-            self.text = original_text
+            try:
+                for step in steps:
+                    passed = step.run(self._runner, quiet=True, capture=False)
+                    if not passed:
+                        # -- ISSUE #96: Provide more substep info to diagnose problem.
+                        step_line = u"%s %s" % (step.keyword, step.name)
+                        message = "%s SUB-STEP: %s" % \
+                                  (step.status.name.upper(), step_line)
+                        if step.error_message:
+                            message += "\nSubstep info: %s\n" % step.error_message
+                            message += u"Traceback (of failed substep):\n"
+                            message += u"".join(traceback.format_tb(step.exc_traceback))
+                        # message += u"\nTraceback (of context.execute_steps()):"
+                        assert False, message
+            finally:
+                # -- FINALLY: Restore original context data for current step.
+                self.table = original_table
+                self.text = original_text
         return True
 
     def _select_stack_frame_by_layer(self, layer):
